@@ -15,6 +15,8 @@ FUEL = 200000
 RUNAWAY = 300                    # more log events than this in one case: user code stops doing anything, the case fails
 CB_KINDS = ["exec", "compiled", "lambda", "partial", "typemethod", "method", "callable", "builtin_raise"]
 D31_KINDS = ["exec_bare", "partial_unnamed"]      # callables without __name__ / with __module__ None (repair D31)
+BUILTIN_FALSY = {"int0": int, "emptystr": str, "emptytuple": tuple, "emptydict": dict, "emptyfrozenset": frozenset, "float0": float}
+OBJECT_FALSY = ["len0", "boolFalse", "emptylist"]
 OPAQUE = "<opaque>"               # the one "component" a non-indexable dependency object stands for
 
 class ScriptError(Exception):
@@ -126,7 +128,11 @@ class Env:
         if name in self.comps: return self.comps[name][0]
         env = self
         evs = self.case["events"].get(name)
-        base = self.chk.revent.EventMixin if evs is not None else object
+        falsy = self.case.get("falsy", {}).get(name)       # a component whose truth value is False (empty table, 0, "" ...)
+        if falsy in BUILTIN_FALSY and evs is None:
+            self.comps[name] = [None, BUILTIN_FALSY[falsy]()]
+            return None
+        base = self.chk.revent.EventMixin if evs is not None else (list if falsy == "emptylist" else object)
         def __new__(cls, *a, **k):
             inst = env.comps[name][1]
             if inst is None:
@@ -134,6 +140,8 @@ class Env:
                 env.comps[name][1] = inst
             return inst
         d = {"__new__": __new__}
+        if falsy == "boolFalse": d["__bool__"] = lambda self_: False
+        elif falsy is not None and base is not list: d["__len__"] = lambda self_: 0
         if evs is not None:
             d["_eventMixin_events"] = set(self.evclass(e) for e in evs)
         if name in CORENAMED or not name.isidentifier():
@@ -145,7 +153,8 @@ class Env:
         return cls
 
     def component(self, name):
-        return self.comp_class(name)()
+        cls = self.comp_class(name)
+        return self.comps[name][1] if cls is None else cls()
 
     def make_sink(self, k, wid):
         s = self.case["sinks"][k]
@@ -202,7 +211,9 @@ class Env:
         core, k = self.core, a["a"]
         if k == "register":
             name, via = a["n"], a.get("via", "register")
-            if via == "registerNew":
+            if self.comp_class(name) is None:             # 0, "", (), {} ...: only register(name, value) can register them
+                core.register(name, self.component(name))
+            elif via == "registerNew":
                 core.registerNew(self.comp_class(name))
             elif via == "register1":
                 core.register(self.component(name))
@@ -412,11 +423,11 @@ class C08(Check):
                 "Pox.C08.fired_snapshot_is_registry", "Pox.C08.quit_goes_down", "Pox.C08.exec_reach", "Pox.C08.driver_reach", "Pox.C08.lifecycle_defect",
                 "Pox.C08.handler_names_component", "Pox.C08.handler_binds_event", "Pox.C08.listen_deps_exact", "Pox.C08.wiring_exact",
                 "Pox.C08.wiring_once", "Pox.C08.handler_wired"]
-    anchors = [("pox/core.py", 303, 347),       # quit / _quit
-               ("pox/core.py", 386, 470),       # goUp, _get_go_up_deferral, _goUp_stage2, _waiter_notify, hasComponent
-               ("pox/core.py", 472, 586),       # registerNew, register, call_when_ready, _try_waiter, _try_waiters
-               ("pox/core.py", 610, 658)]       # listen_to_dependencies (after the docstring)
-    # pox/boot.py:524-526 (`if _do_launch(argv): _post_startup(); core.goUp()`) is not executed; translate() checks by ast that it
+    # name-based anchors, resolved by ast on the current source on every run (robust to line shifts)
+    anchors = [("pox/core.py", "POXCore." + m) for m in
+               ("quit", "_quit", "goUp", "_get_go_up_deferral", "_goUp_stage2", "_waiter_notify", "hasComponent", "registerNew",
+                "register", "call_when_ready", "_try_waiter", "_try_waiters", "listen_to_dependencies", "__getattr__")]
+    # pox/boot.py (`if _do_launch(argv): _post_startup(); core.goUp()`) is not executed; translate() checks by ast that it
     # is still the only call of goUp in pox/ (the hypothesis "goUp at most once" of the lifecycle theorems)
     coverage_cases = 10 ** 9        # every case runs under the anchored-line tracer (cheap: only frames of core.py are traced)
     trusted_base = ["model Model/Core.lean hand-written from pox/core.py (small-step machine with an explicit control stack); tied to the code by this correspondence run",
@@ -647,6 +658,26 @@ class C08(Check):
             yield mkcase([REG("x"), DECL(["x"], 1, cb=kind), DECL(["x"], 0)], bodies=[[], [RAISE]])
             yield mkcase([DECL(["x"], 1), REG("x")], bodies=[[], [DECL(["x"], 2, cb=kind), REG("y")], [RAISE]])
 
+    def _falsy_cases(self):
+        """registered is registered, whatever the truth value of the object: falsy components (an empty table, `__bool__` False,
+        0, "", (), {} ...) as the awaited component, as one of several, as event source of a listening sink, registered before
+        and after the declaration, and registered by a callback"""
+        kinds = OBJECT_FALSY + sorted(BUILTIN_FALSY)
+        for kind in kinds:
+            f = {"x": kind}
+            yield mkcase([DECL(["x"], 0), REG("x")], bodies=[[]], falsy=f)
+            yield mkcase([REG("x"), DECL(["x"], 0)], bodies=[[]], falsy=f)
+            yield mkcase([DECL(["x", "y"], 0), DECL(["y"], 1), REG("y"), DECL(["x"], 0)], bodies=[[], [REG("x")]], falsy=f)
+            yield mkcase([DECL(["y", "x"], 0, ctype="tuple"), REG("x"), REG("y"), REG("x")], bodies=[[]], falsy={"x": kind, "y": kinds[(kinds.index(kind) + 1) % len(kinds)]})
+            yield mkcase([GOUP, DECL(["x"], 0), REG("x", "registerNew"), QUIT], bodies=[[]], falsy=f)
+        for kind in OBJECT_FALSY:
+            f = {"a": kind, "b": OBJECT_FALSY[(OBJECT_FALSY.index(kind) + 1) % 3], "p": "emptydict"}
+            for k in (0, 1, 4, 5):
+                for pos in range(4):
+                    regs = [REG("a", "registerNew"), REG("b", "register1"), REG("p")]
+                    yield mkcase(regs[:pos] + [LISTEN(k)] + regs[pos:], bodies=[[], [REG("b")], [RAISE]], sinks=self.SINKS,
+                                 events=self.SINK_EVENTS, falsy=f)
+
     def corpus(self):
         cases = []
         for nr in range(4):
@@ -659,6 +690,7 @@ class C08(Check):
         cases += list(self._misc_cases())
         cases += list(self._callback_kind_cases())
         cases += list(self._d31_cases())
+        cases += list(self._falsy_cases())
         return cases
 
     def _random_case(self, rng, big):
@@ -736,7 +768,11 @@ class C08(Check):
                     if a is RAISE and rng.random() < 0.7: a = GET
                     acts.append(a)
             hs[h] = acts
-        return mkcase(ops, bodies=bodies, sinks=sinks, events=events, **hs)
+        falsy = {}
+        for n in names:
+            if rng.random() < 0.3:
+                falsy[n] = rng.choice(OBJECT_FALSY + (sorted(BUILTIN_FALSY) if n not in events else []))
+        return mkcase(ops, bodies=bodies, sinks=sinks, events=events, falsy=falsy, **hs)
 
     def generate(self, rng, tier):
         n = 1200 if tier == "quick" else 60000
